@@ -1301,7 +1301,12 @@ def uniform_partition(min_pt=None, max_pt=None, shape=None, cell_sides=None,
             pass
         else:
             xmax_calc = xmin + (n - sum([bdry_l, bdry_r]) / 2.0) * dx
-            if not np.isclose(xmax, xmax_calc):
+            # Tolerance relative to the cell size as for the number of
+            # nodes above (not to the magnitude of the coordinates), plus
+            # the rounding error of the coordinates themselves
+            atol = (1e-5 * abs(dx) +
+                    4 * np.finfo(float).eps * max(abs(xmin), abs(xmax)))
+            if not abs(xmax - xmax_calc) <= atol:
                 raise ValueError('in axis {}: calculated endpoint '
                                  '{} = {} + {} * {} too far from given '
                                  'endpoint {}.'
